@@ -471,15 +471,18 @@ def fix_reimported_names(source: str) -> str:
     )
     module_from_imports = collections.defaultdict(set)
 
+    # The redirected imports are inserted at module level, so only imports at module level are
+    # redirected: an import inside a function binds a local name, and may shadow another import.
     import_insert_lineno = min(
-        (node.lineno for node in core.walk(root, (ast.ImportFrom, ast.Import))), default=-1
+        (node.lineno for node in core.filter_nodes(root.body, (ast.ImportFrom, ast.Import))),
+        default=-1,
     )
     if import_insert_lineno == -1:
         return source  # No imports, nothing to do
 
     transaction = 0
 
-    for node in core.walk(root, ast.ImportFrom):
+    for node in core.filter_nodes(root.body, ast.ImportFrom):
         if node.level:
             continue  # A relative import, node.module is not the name of a top level module
 
